@@ -36,7 +36,7 @@ func runParamRoundTrips(r *Report, rng *rand.Rand, lab *Lab, cells map[string][]
 					v := genValueAt(rng, c, i)
 					id := fmt.Sprintf("%s/%s/%d", name, c.Op, i)
 					sc := map[string]any{"id": id, "pkg": name, "opts": map[string]any{"short_circuit": -1, "strict_short_circuit": -1},
-						"client": map[string]any{"fn": "New" + opName(c.Op) + "Request", "args": clientArgs(c, &v), "then_serve": true}}
+						"client": map[string]any{"fn": "New" + opName(c.Op) + "Request", "args": clientArgs(c, &v), "then_serve": true, "via_method": len(scenarios)%2 == 1}}
 					scenarios = append(scenarios, sc)
 					vv := v
 					obs = append(obs, pobs{fw, c, &vv, nil, sc})
@@ -44,7 +44,7 @@ func runParamRoundTrips(r *Report, rng *rand.Rand, lab *Lab, cells map[string][]
 				if withOmitted && !c.Required {
 					id := fmt.Sprintf("%s/%s/omitted", name, c.Op)
 					sc := map[string]any{"id": id, "pkg": name, "opts": map[string]any{"short_circuit": -1, "strict_short_circuit": -1},
-						"client": map[string]any{"fn": "New" + opName(c.Op) + "Request", "args": clientArgs(c, nil), "then_serve": true}}
+						"client": map[string]any{"fn": "New" + opName(c.Op) + "Request", "args": clientArgs(c, nil), "then_serve": true, "via_method": len(scenarios)%2 == 1}}
 					scenarios = append(scenarios, sc)
 					obs = append(obs, pobs{fw, c, nil, nil, sc})
 				}
@@ -243,7 +243,7 @@ func runC04(r *Report, rng *rand.Rand, thorough bool) {
 				}
 				id := fmt.Sprintf("%s/pathmulti/%d", name, k)
 				scenarios = append(scenarios, map[string]any{"id": id, "pkg": name, "opts": map[string]any{"short_circuit": -1, "strict_short_circuit": -1},
-					"client": map[string]any{"fn": "NewPathmultiRequest", "args": args, "then_serve": true}})
+					"client": map[string]any{"fn": "NewPathmultiRequest", "args": args, "then_serve": true, "via_method": len(scenarios)%2 == 1}})
 				ms[id] = mm{fw, vals}
 			}
 		}
@@ -305,7 +305,7 @@ func runC04(r *Report, rng *rand.Rand, thorough bool) {
 				ib, _ := json.Marshal(idv)
 				id := fmt.Sprintf("%s/lead/%d", name, k)
 				scenarios = append(scenarios, map[string]any{"id": id, "pkg": name, "opts": map[string]any{"short_circuit": -1, "strict_short_circuit": -1},
-					"client": map[string]any{"fn": "NewLeadparamRequest", "args": []json.RawMessage{lb, ib}, "then_serve": true}})
+					"client": map[string]any{"fn": "NewLeadparamRequest", "args": []json.RawMessage{lb, ib}, "then_serve": true, "via_method": len(scenarios)%2 == 1}})
 				ms[id] = lm{fw, lead, idv}
 			}
 		}
